@@ -49,6 +49,28 @@ let handle (line : ostr) : ostr =
     let sv (((c, t), l), p) = "[\"" ^ hex_of_bytes c ^ "\",\"" ^ hex_of_bytes t ^ "\"," ^ string_of_int (int_of_nat l) ^ ","
                               ^ (match p with None -> "null" | Some x -> "\"" ^ hex_of_bytes x ^ "\"") ^ "]" in
     res_out (fun vs -> "[" ^ OS.concat "," (List.map sv vs) ^ "]") (lv vis_T (b 0) (b 4) fuel None n [] O)
+  | ["tab"; flags; po; pi; id; orig; igs; tree] ->
+    (* static tabular export of a root node: per top-level statement its rows and its printed text *)
+    let n = node_of_string tree in
+    let b i = flags.[i] = '1' in
+    let c = { t_ext = b 0; t_anno = b 1; t_gs = b 2 } in
+    let inc = function "none" -> INone | "first" -> IFirst | "all" -> IAll | _ -> IOther in
+    let fuel = nat_of_int (int_of_nat (node_size n) + 3) in
+    let row_out r = "{" ^ OS.concat "," (List.filter_map (fun (k, v) -> if v = [] then None else Some ("\"" ^ hex_of_bytes k ^ "\":\"" ^ hex_of_bytes v ^ "\"")) r) ^ "}" in
+    res_out (fun rs -> "[" ^ OS.concat "," (List.map (fun (rows, out) ->
+        "{\"rows\":[" ^ OS.concat "," (List.map row_out rows) ^ "],\"out\":\"" ^ hex_of_bytes out ^ "\"}") rs) ^ "]")
+      (tab_root tab_T c fuel n (to_bytes (string_of_hex id)) (b 3) (inc po) (inc pi) (to_bytes (string_of_hex orig)) (to_bytes (string_of_hex igs)))
+  | ["link"; tree; p; q] ->
+    let n = node_of_string tree in
+    let path s = List.map (fun c -> c = '1') (List.init (OS.length s) (OS.get s)) in
+    let ops l = OS.concat " " (List.map (fun o -> of_bytes (op_name o)) l) in
+    (match find_linkage n (path p) (path q) with
+     | Ok (found, l) -> Printf.sprintf "ok:%b:%s:%s" found (ops l) (ops (path_ops n (path p) (path q)))
+     | r -> res_out (fun _ -> "") r)
+  | ["refs"; ids] ->
+    let ids = if ids = "" then [] else List.map int_of_string (OS.split_on_char ',' ids) in
+    let refs = List.fold_left (fun acc i -> add_ref acc (nat_of_int i)) [] ids in
+    OS.concat "," (List.map of_bytes refs) ^ ":" ^ OS.concat "," (List.map (fun z -> string_of_int (int_of_z z)) (expand_refs refs))
   | ["echo"; tree] -> wstmt (stmt_of_string tree)
   | m :: _ -> "bad:unknown mode " ^ m
   | [] -> "bad:empty"
